@@ -125,10 +125,17 @@ def dprint_rule(rep, repo):
     w = where(f)
     forward_rule(rep, 'R-FORWARD', need(mod, 'debug_printdec_float_prec'), 'debug_printdec_float_prec', fname,
                  [('arg', 0), ('arg', 1)], None)
-    # NaN / infinity are recognised by bit pattern and diverted before any digit is computed
     convs = [i for i in f.all_insts() if i.op in ('fptosi', 'fptoui')]
+    deleg = [c for c in f.calls() if c.callee in ('igris_ftoa', 'igris_f64toa', 'igris_f32toa')]
+    if deleg and not convs:
+        # rewritten on top of the verified renderer: nothing of its own left to decide here
+        a0 = strip(f, deleg[0].ops[0], ('fpext', 'fptrunc'))
+        rep.inst('R-DPRINT', fname, 'the value is rendered by igris_ftoa', a0.k == 'arg' and a0.argno == 0, deleg[0].where(),
+                 'the renderer is not called with the value parameter')
+        return True
     if not convs:
         raise AnalysisBroken('%s: no float -> integer conversion found (anchor changed)' % fname)
+    # NaN / infinity are recognised by bit pattern and diverted before any digit is computed
     first = [c for c in convs if all(c is d or f.dominates(c, d) for d in convs)]
     if len(first) != 1:
         raise AnalysisBroken('%s: no conversion dominates the others (anchor changed)' % fname)
@@ -243,7 +250,7 @@ def run(rep, repo, tier):
     forward_rule(rep, 'R-FORWARD', need(modl, 'strtod'), 'strtod', 'igris_atof64', [('arg', 0), ('arg', 1)], 'float')
     forward_rule(rep, 'R-FORWARD', need(modl, 'atof'), 'atof', 'igris_atof64', [('arg', 0), ('null',)], 'float')
     binreader_rule(rep, repo)
-    dprint_rule(rep, repo)
+    delegated = dprint_rule(rep, repo)
     rep.floor('R-FTOA', 40)
     rep.floor('R-FCONV', 2)
     rep.floor('R-DIGITS', 9)
@@ -257,4 +264,4 @@ def run(rep, repo, tier):
     rep.floor('R-GRAMMAR', 8)
     rep.floor('R-FPACC', 2)
     rep.floor('R-BINREADER', 4)
-    rep.floor('R-DPRINT', 6)
+    rep.floor('R-DPRINT', 1 if delegated else 6)
